@@ -178,6 +178,10 @@ impl Drop for K {
 impl PartialEq for K {
     fn eq(&self, o: &K) -> bool {
         bump();
+        // a comparison reads both keys: for the happens-before monitor this is where a key
+        // stored in the map is actually accessed
+        crate::sched::emit_user(crate::hb::U_ACCESS_K, self.inst, 0);
+        crate::sched::emit_user(crate::hb::U_ACCESS_K, o.inst, 0);
         self.tag == o.tag
     }
 }
@@ -190,6 +194,8 @@ impl PartialOrd for K {
 impl Ord for K {
     fn cmp(&self, o: &K) -> std::cmp::Ordering {
         bump();
+        crate::sched::emit_user(crate::hb::U_ACCESS_K, self.inst, 0);
+        crate::sched::emit_user(crate::hb::U_ACCESS_K, o.inst, 0);
         self.tag.cmp(&o.tag)
     }
 }
